@@ -396,7 +396,11 @@ def _construct_case(repo, it, S, spec):
         make = lambda: mk_gene(it, kids, gene_id="rebuilt", parent_or_seq_chunk_parent=cpar)  # noqa: E731
         q = "gene.gene:GeneInterval.__init__"
     elif container == "feature collection":
-        kids = list(fc.fields["feature_intervals"])
+        # members with different type sets, the first one not a superset of the others (an untyped member first)
+        kids = [mk_feature(it, [(4, 9)], S["PLUS"], feature_name="untyped", parent_or_seq_chunk_parent=par),
+                mk_feature(it, [(12, 20)], S["PLUS"], feature_name="typed", feature_types=["t1"], parent_or_seq_chunk_parent=par),
+                mk_feature(it, [(22, 30)], S["PLUS"], feature_name="typed2", feature_types=["t2", "t1"], parent_or_seq_chunk_parent=par)] + \
+            list(fc.fields["feature_intervals"])
         make = lambda: mk_feature_collection(it, kids, feature_collection_id="rebuilt", parent_or_seq_chunk_parent=cpar)  # noqa: E731
         q = "gene.feature:FeatureIntervalCollection.__init__"
     else:
